@@ -11,7 +11,7 @@ env = dict(os.environ, GOFLAGS="-mod=mod", GOPROXY="off")
 env.pop("GOTOOLCHAIN", None)
 passed_any = set(); failed_last = set()
 for r in range(runs):
-    p = subprocess.run(["go", "test", "-json", "-vet=off", "-count=1", "-timeout", "25m", "./..."],
+    p = subprocess.run(["go", "test", "-json", "-vet=off", "-count=1", "-timeout", os.environ.get("BASELINE_TIMEOUT", "25m"), "./..."],
                        cwd=repo, env=env, stdout=subprocess.PIPE, stderr=subprocess.STDOUT, text=True)
     failed_last = set()
     for line in p.stdout.splitlines():
